@@ -7,6 +7,7 @@ import (
 	"fmt"
 	"go/token"
 	"go/types"
+	"os"
 	"regexp"
 	"strings"
 
@@ -508,6 +509,9 @@ func (w *World) finishWriteBack(fin *ssa.Function) (okBalance, okNonce bool, why
 	okBalance, okNonce = true, true
 	marks := 0
 	for _, p := range paths {
+		if os.Getenv("RIGOCHECK_DEBUG") == "e2" {
+			fmt.Fprintln(os.Stderr, "E2", p.Term, p.Events)
+		}
 		sb, sn := false, false
 		for _, e := range p.Events {
 			switch {
